@@ -534,7 +534,19 @@ def h_selectcands(case):
     return {'out': [[r.start, r.length] for r in out]}
 
 
+def h_generatedates(case):
+    """DateUtils.generate_dates(no_year=True, ...) (advisory binding of GenerateDates.tla); dates as ordinals, 0 = min_value"""
+    import datetime as _dt
+    from recognizers_date_time.date_time.utilities import DateUtils
+    d0 = _dt.date.fromordinal(case['n'])
+    ref = _dt.datetime(d0.year, d0.month, d0.day, 15 if case['tod'] else 0, 0, 0)
+    fut, past = DateUtils.generate_dates(True, ref, ref.year, case['m'], case['d'])
+    o = lambda x: 0 if x.year == 1 and x.month == 1 and x.day == 1 else x.toordinal()
+    return {'res': [o(fut), o(past)]}
+
+
 _HANDLERS = {
+    'generatedates': h_generatedates,
     'selectcands': h_selectcands,
     'choicematch': h_choicematch,
     'intvalue': h_intvalue,
